@@ -244,6 +244,8 @@ def r_write(seq, cls: str, opts, entry: str = "stream_frames_gen", bindings=()) 
         return out.getvalue()
     if entry == "graph_serialize_options":
         return g.serialize(format="jelly", options=opts, encoding="utf-8")
+    if entry == "graph_serialize_default":
+        return g.serialize(format="jelly", encoding="utf-8")
     if entry == "grouped_to_file":
         out = io.BytesIO()
         rser.grouped_stream_to_file((x for x in [g]), out, options=opts)
